@@ -233,7 +233,7 @@ pub fn minimize(case: &Case, sig: &str, ctx: &Ctx) -> Case {
     if let Case::W4 { .. } = case {
         return minimize_w4(case, sig, ctx);
     }
-    if let Case::W8 = case {
+    if let Case::W8 | Case::W5(_) = case {
         return case.clone();
     }
     if let Case::W3(_) | Case::W6(_) | Case::W7(_) = case {
